@@ -16,7 +16,7 @@ open Apollo.Guards Apollo.Det Apollo.Generated
 
 /-- `validation/variable.rs :: validate_unused_variables :: for … in unused_vars`: covered by
     `unused_variables_deterministic` below. -/
-def siteUnusedVars : Nat := 144054494329241
+def siteUnusedVars : Nat := 66264114811652
 /-- `schema/validation.rs :: validate_schema :: for name in builtin_scalars.used_and_undefined`: modelled as
     `finalTypes` (Model/Determinism.lean, correspondence stream `restore`). Unreachable from text: the schema
     builder always defines all five built-in scalars, so `used_and_undefined` is empty and the loop does nothing
@@ -24,7 +24,7 @@ def siteUnusedVars : Nat := 144054494329241
     only by editing a `Schema` in memory: then the SET of types is still order-independent
     (`builtin_restore_same_types`) but the relative order of two restored scalars is not
     (`builtin_restore_order_dependent_in_memory`). -/
-def siteBuiltinScalars : Nat := 236218586377126
+def siteBuiltinScalars : Nat := 52540737318924
 -- (`apollo-smith implements_graph.rs :: topo_order_parents_first :: self.by_name.keys()`, code
 -- 114203739016255, was a third site: the fallback taken when the `implements` graph has a cycle. It made
 -- apollo-smith's output depend on the process; repaired in /repo by fix 0d00bde and therefore not audited.)
